@@ -58,6 +58,21 @@ def nets():
     S.add_simplices_from([([1, 2, 3], "t", {"w": [1]}), ([3, 4], 7, {"z": {"a": [0]}})])
     S["meta"] = {"k": [1]}
     out.append(("SC", S))
+    # ids that are themselves iterable (tuples as produced by merge_duplicate_edges(rename="tuple"), frozensets), first in the table
+    H = xgi.Hypergraph()
+    H.add_edge([1, 2], idx=("a", "b"))
+    H.add_edge([2, 3], idx=frozenset({7}))
+    H.add_edge([3, 4], idx=2)
+    out.append(("H-iterable-ids", H))
+    D = xgi.DiHypergraph()
+    D.add_edge(([1, 2], [3]), idx=("a", "b"))
+    D.add_edge(([3], [4]), idx=5)
+    D.add_edge(([4], [1, 2]), idx=frozenset({7}))
+    out.append(("DH-iterable-ids", D))
+    S = xgi.SimplicialComplex()
+    S.add_simplex([1, 2, 3], idx=("t", 1))
+    S.add_simplex([3, 4], idx=4)
+    out.append(("SC-iterable-ids", S))
     return out
 
 
@@ -98,9 +113,13 @@ def main():
     for label, H in nets():
         makers = {"copy": lambda H=H: H.copy(), "pickle": lambda H=H: pickle.loads(pickle.dumps(H)), "constructor": lambda H=H: H.__class__(H)}
         for how, mk in makers.items():
-            with warnings.catch_warnings():
-                warnings.simplefilter("ignore")
-                C = mk()
+            try:
+                with warnings.catch_warnings():
+                    warnings.simplefilter("ignore")
+                    C = mk()
+            except Exception as e:  # noqa
+                check(False, "%s raised" % how, label, repr(e))
+                continue
             s0 = state(H)
             check(same(state(C), s0), "%s is equal to the source" % how, label, (state(C)["edges"], s0["edges"]))
             check(type(C) is type(H) and not C.is_frozen, "%s has the same class and is editable" % how, label)
@@ -139,7 +158,10 @@ def main():
                 check(same(state(H), s0), "in-place change of nested attribute values through %s() is invisible in the source" % how, label)
         with warnings.catch_warnings():
             warnings.simplefilter("ignore")
-            check(add_auto(H.copy()) and same(state(H), state(H)), "source unaffected", label)
+            try:
+                check(add_auto(H.copy()) and same(state(H), state(H)), "source unaffected", label)
+            except Exception as e:  # noqa
+                check(False, "copy raised", label, repr(e))
     json.dump({"checks": N[0], "violations": V}, sys.stdout)
 
 
